@@ -1062,6 +1062,33 @@ impl<'a> Lifter<'a> {
                 let r = self.rest(rest, cont)?;
                 Ok(v(format!("{{ let {name} = {val}; {} }}", r.text), &r.ty))
             }
+            Expr::MethodCall(m) if self.reg.fns.contains_key(&m.method.to_string())
+                && m.args.iter().any(|a| matches!(a, Expr::Reference(r) if r.mutability.is_some())) =>
+            {
+                // `recv.f(&mut x);` with f lifted as "returns the final value of its &mut parameter"
+                let name = m.method.to_string();
+                let target = m
+                    .args
+                    .iter()
+                    .find_map(|a| match a {
+                        Expr::Reference(r) if r.mutability.is_some() => match &*r.expr {
+                            Expr::Path(p) => p.path.get_ident().map(|i| i.to_string()),
+                            _ => None,
+                        },
+                        _ => None,
+                    })
+                    .ok_or("construct outside rule list (lift): &mut argument is not a variable")?;
+                let recv = self.expr(&m.receiver)?;
+                let mut args = vec![recv.text];
+                for a in &m.args {
+                    args.push(self.expr(a)?.text);
+                }
+                let rty = self.reg.fns[&name].1.clone();
+                self.note("L13", e.span(), &format!("call with &mut argument lifted to `let {target} = {name}(..)`"));
+                self.bind(&target, &rty);
+                let r = self.rest(rest, cont)?;
+                Ok(v(format!("{{ let {target} = crate::{name}({}); {} }}", args.join(", "), r.text), &r.ty))
+            }
             Expr::Match(m) => {
                 // a statement-position match whose arms assign / mutate the out parameter
                 let k = |s: &mut Self| s.rest(rest, cont);
@@ -1168,7 +1195,7 @@ impl<'a> Lifter<'a> {
                 }
                 return unsupported("from_shape_fn shape", whole);
             }
-            "Quantity::from_vec" | "Array1::from_vec" | "Array::from_vec" => return self.expr(&c.args[0]),
+            "Quantity::from_vec" | "Array1::from_vec" | "Array::from_vec" | "arr1" => return self.expr(&c.args[0]),
             "f64::max" => {
                 let a = self.expr(&c.args[0])?;
                 let b = self.expr(&c.args[1])?;
@@ -1298,6 +1325,7 @@ impl<'a> Lifter<'a> {
         }
         let r1 = |f: &str, x: &Val| v(format!("{f}({})", x.text), "real");
         match (name.as_str(), recv.ty.as_str()) {
+            ("iter" | "into_iter", "RArr") => return Ok(recv),
             ("clone" | "to_owned" | "to_reduced" | "into_value" | "to_vec" | "view" | "copied" | "as_ref", _) => {
                 if name == "to_reduced" || name == "into_value" {
                     self.note("L11", whole.span(), "unit accessor erased");
